@@ -480,6 +480,10 @@ func wireCampaign(o *hlib.Opts, r *hlib.Result, m *hlib.Model) {
 		probe{"127.0.0.1", request{qname: "ok.test.", qtype: dns.TypeA, loc: l(42), dev: "err"}, plain},
 		probe{"127.0.0.1", request{qname: "ok.test.", qtype: dns.TypeA, loc: l(42), dev: "ok:0"}, plain},
 		probe{"127.0.0.1", request{qname: "ok.test.", qtype: dns.TypeA, loc: l(7), dev: "ok:0"}, plain},
+		// The profile's access settings with filtering (and everything else) switched off.
+		probe{"127.0.0.1", request{qname: "ok.test.", qtype: dns.TypeA, loc: l(42), dev: "ok:0:Ff"}, plain},
+		probe{"127.0.0.1", request{qname: "ok.test.", qtype: dns.TypeA, loc: l(42), dev: "ok:0:" + attrFlags, ecs: 2}, plain},
+		probe{"127.0.0.1", request{qname: "ok.test.", qtype: dns.TypeA, loc: l(7), dev: "ok:0:Ff"}, plain},
 		probe{"127.0.0.1", request{qname: "ok.test.", qtype: dns.TypeA, dev: "err"}, plain},
 		probe{"127.0.0.1", request{qname: "ok.test.", qtype: dns.TypeA, dev: "nil", ecs: 2}, plain},
 		probe{"127.0.0.1", request{qname: "ok.test.", qtype: dns.TypeA, dev: "unk"}, plain},
@@ -540,7 +544,7 @@ func runWire(r *hlib.Result, m *hlib.Model, c *cfg, ws *wireServer, probes []pro
 		}
 		f := ws.f
 		ws.rec.mu.Lock()
-		f.dev, f.loc, f.cur = f.devResult(q.dev), q.loc, &q
+		f.dev, f.loc, f.cur = f.devResult(q.dev, q.eff()), q.loc, &q
 		f.nextCalls, f.limCalls = 0, 0
 		ws.rec.calls, ws.rec.wrote, ws.rec.err = 0, false, nil
 		ws.rec.mu.Unlock()
